@@ -82,3 +82,9 @@ claim("C16",
  "symbolic execution of go/ssa + SMT; library verification functions are ideal verdict stubs that record their operands",
  "DESIGN.md 6/C16",
  "Not covered: binary/JSON re-encoding (generated protobuf and reflection-based tmjson are outside the encoder), the cometbft signature and voting-power arithmetic itself.")
+
+claim("C19",
+ "Bounded symbolic model checking of the RPC authorisation path executed from the real code: newHandlerStack, authHandler, verifyAuth, authtoken.ExtractSignedPermissions, RegisterService, the perms sets and go-jsonrpc's real auth.Handler/HasPerm/WithPerm, for EVERY method of every registered module (the `perm` tag table is regenerated from /repo's source on each run) x {no token, token with passing/failing signature check} x ARBITRARY permission subset x no expiry / arbitrary 64-bit expiry instant against an arbitrary current instant x auth on/off x CORS on/off: a method is reached exactly when the credential grants its declared permission; without a token only public methods; failed signature or expiry answers 401 and reaches nothing; auth off grants all; and every method of the sensitive categories (funds, submission, credentials, identity/peers, reconfiguration) declares write or admin.",
+ "symbolic execution of go/ssa + SMT (expiry/now as 64-bit symbolic instants, credential class as decisions); reflection-based proxy replaced by a tag table generated from the syntax tree",
+ "DESIGN.md 6/C19",
+ "go-jsonrpc's reflective PermissionedProxy/dispatch and the JWT/HMAC library are models (ideal verdict); transport, client side not covered.")
